@@ -116,6 +116,19 @@ pub fn run(op: &str, args: &[String]) -> Option<String> {
                 let sig = BSM::sign_message(&k, b"m").unwrap();
                 cls(sig.recover_public_key_from_digest(&arg_bytes(args, 0)?))
             }
+            "recover_digest2" => match Signature::from_compact_bytes(&arg_bytes(args, 0)?) {
+                // arbitrary compact signature + arbitrary digest
+                Ok(s) => cls(s.recover_public_key_from_digest(&arg_bytes(args, 1)?)),
+                Err(_) => "ERR".into(),
+            },
+            "recover_msg2" => match Signature::from_compact_bytes(&arg_bytes(args, 0)?) {
+                Ok(s) => {
+                    let m = arg_bytes(args, 1)?;
+                    let _ = s.recover_public_key(&m, SigningHash::Sha256);
+                    cls(s.recover_public_key(&m, SigningHash::Sha256d))
+                }
+                Err(_) => "ERR".into(),
+            },
             "compact_recover" => match Signature::from_compact_bytes(&arg_bytes(args, 0)?) {
                 Ok(s) => {
                     let _ = s.recover_public_key(b"msg", SigningHash::Sha256d);
